@@ -1,6 +1,7 @@
 /- driver ops for SM2: `impl` runs the models of the code, `spec` the oracle (GB/T 32918 textbook arithmetic) -/
 import GmVerif.Drv.Util
 import GmVerif.Impl.SM2.Key
+import GmVerif.Impl.SM2.Docs
 import GmVerif.Spec.SM2
 namespace GmVerif.Drv.SM2
 open GmVerif GmVerif.Drv
@@ -46,6 +47,20 @@ def showRand (r : Impl.SM2.Rand (List UInt8)) : String :=
     ++ " left=" ++ toString r.rest.length
 
 def bind2 {α β} (o : Outcome α) (f : α → Outcome β) : Outcome β := o.bind f
+
+/-- alter a ciphertext as the `sm2_tamper` op describes -/
+def tamper (ct : List UInt8) (c1len : Nat) (kind arg : String) : Option (List UInt8) :=
+  match kind with
+  | "none" => some ct
+  | "flip" => arg.toNat?.map fun b => ct.mapIdx fun i x => if i = b / 8 then x ^^^ ((0x80 : UInt8) >>> (b % 8).toUInt8) else x
+  | "trunc" => arg.toNat?.map fun l => ct.take l
+  | "prefix" => arg.toNat?.map fun v => (match ct with | [] => [] | _ :: r => v.toUInt8 :: r)
+  | "c1" => (bytesOfHex arg).map fun n => n ++ ct.drop c1len
+  | _ => none
+
+/-- `hex::decode` of an ASCII string given as bytes: even length, [0-9a-fA-F] -/
+def asciiHexDecode (b : List UInt8) : Option (List UInt8) :=
+  bytesOfHexAux (b.map fun c => Char.ofNat c.toNat) []
 
 def implStep (toks : List String) : Option String :=
   match toks with
@@ -139,6 +154,67 @@ def implStep (toks : List String) : Option String :=
     pure (showOut (bind2 (Impl.SM2.sk_new dA) fun (dA, pA) => bind2 (Impl.SM2.sk_new dB) fun (dB, pB) =>
       (Impl.SM2.kex dA pA dB pB idA idB klen [rA, rB] (tam.splitOn ",")).map fun o =>
         String.intercalate " " [hexB o.ra, hexB o.rb, hexB o.sb, hexB o.sa, hexB o.ka, hexB o.kb]))
+  | ["sm2_tamper", d, msg, c, order, k, kind, arg] => do
+    let d ← bytesOfHex d; let msg ← bytesOfHex msg; let cands ← parseCands k
+    let comp := c == "1"
+    pure (match Impl.SM2.sk_new d with
+      | .ok (d, p) =>
+        (match Impl.SM2.encrypt p msg comp (modelOf order) cands with
+         | .ok r =>
+           (match tamper r.val (if comp then 33 else 65) kind arg with
+            | some ct => showOut ((Impl.SM2.decrypt d ct comp (modelOf order)).map hexB)
+            | none => "BADOP")
+         | .err e => "ERR enc:" ++ e
+         | .panic => "PANIC")
+      | .err e => "ERR " ++ e
+      | .panic => "PANIC")
+  | ["pk_hex", h] => do
+    let h ← bytesOfHex h
+    pure (match asciiHexDecode h with
+      | none => "ERR HexOrKey"
+      | some b => (match Impl.SM2.pk_new b with
+        | .ok p => "OK " ++ hexB (p.to_byte_be false) ++ " " ++ hexB (p.to_byte_be true)
+        | .err _ => "ERR HexOrKey"
+        | .panic => "PANIC"))
+  | ["sk_hex", h] => do
+    let h ← bytesOfHex h
+    pure (match asciiHexDecode h with
+      | none => "ERR HexOrKey"
+      | some b => (match Impl.SM2.sk_new b with
+        | .ok (d, p) => "OK " ++ hexB (natBE 32 d) ++ " " ++ hexB (p.to_byte_be false)
+        | .err _ => "ERR HexOrKey"
+        | .panic => "PANIC"))
+  | ["sm2_sv", d, id, msg, cands] => do
+    let d ← bytesOfHex d; let id ← parseId id; let msg ← bytesOfHex msg; let cands ← parseCands cands
+    pure (showOut (bind2 (Impl.SM2.sk_new d) fun (d, p) => bind2 (Impl.SM2.sign d p id msg cands) fun r =>
+      (Impl.SM2.verify p id msg r.val).map fun _ => "verified"))
+  | ["sm2_ed", d, msg, c, order, cands] => do
+    let d ← bytesOfHex d; let msg ← bytesOfHex msg; let cands ← parseCands cands
+    pure (showOut (bind2 (Impl.SM2.sk_new d) fun (d, p) => bind2 (Impl.SM2.encrypt p msg (c == "1") (modelOf order) cands) fun r =>
+      (Impl.SM2.decrypt d r.val (c == "1") (modelOf order)).map hexB))
+  | ["sm2_ed_asn1", d, msg, cands] => do
+    let d ← bytesOfHex d; let msg ← bytesOfHex msg; let cands ← parseCands cands
+    pure (showOut (bind2 (Impl.SM2.sk_new d) fun (d, p) => bind2 (Impl.SM2.encrypt_asn1 p msg cands) fun r =>
+      (Impl.SM2.decrypt_asn1 d r.val).map hexB))
+  | ["sm2_spki_enc", pk] => do
+    let pk ← bytesOfHex pk
+    pure (showOut ((Impl.SM2.pk_new pk).map fun p => hexB (Impl.SM2.spki_encode p)))
+  | ["sm2_spki_dec", der] => do
+    let der ← bytesOfHex der
+    pure (showOut ((Impl.SM2.spki_decode der).map fun p => hexB (p.to_byte_be false)))
+  | ["sm2_pkcs8_enc", d] => do
+    let d ← bytesOfHex d
+    pure (showOut ((Impl.SM2.sk_new d).map fun (d, p) => hexB (Impl.SM2.pkcs8_encode d p)))
+  | ["sm2_pkcs8_dec", der] => do
+    let der ← bytesOfHex der
+    pure (showOut ((Impl.SM2.pkcs8_decode der).map fun (d, p) => hexB (natBE 32 d) ++ " " ++ hexB (p.to_byte_be false)))
+  | ["sm2_spki_pem_rt", pk, _le] => do
+    let pk ← bytesOfHex pk
+    pure (showOut (bind2 (Impl.SM2.pk_new pk) fun p => (Impl.SM2.spki_decode (Impl.SM2.spki_encode p)).map fun q => hexB (q.to_byte_be false)))
+  | ["sm2_pkcs8_pem_rt", d, _le] => do
+    let d ← bytesOfHex d
+    pure (showOut (bind2 (Impl.SM2.sk_new d) fun (d, p) => (Impl.SM2.pkcs8_decode (Impl.SM2.pkcs8_encode d p)).map fun (d, q) =>
+      hexB (natBE 32 d) ++ " " ++ hexB (q.to_byte_be false)))
   | ["sm2_keygen", cands] => do
     let cands ← parseCands cands
     pure (match Impl.SM2.random_u256 cands with
@@ -373,9 +449,9 @@ def specStep (toks : List String) : Option String :=
       | some d =>
         match Impl.SM2.parseCiphertext der with
         | none => "ERR"
-        | some (x, y, h, c) =>
-          if x ≥ 2 ^ 256 ∨ y ≥ 2 ^ 256 ∨ h.length ≠ 32 then "ERR" else
-          showSpec ((Spec.SM2.decrypt d ([4] ++ natBE 32 x ++ natBE 32 y ++ h ++ c) false .c1c3c2).map hexB))
+        | some (xb, yb, h, c) =>
+          if xb.length > 32 ∨ yb.length > 32 ∨ h.length ≠ 32 then "ERR" else
+          showSpec ((Spec.SM2.decrypt d ([4] ++ natBE 32 (beNat xb) ++ natBE 32 (beNat yb) ++ h ++ c) false .c1c3c2).map hexB))
   | ["sm2_kex", dA, dB, idA, idB, klen, rA, rB, tam] => do
     let dA ← bytesOfHex dA; let dB ← bytesOfHex dB; let idA ← parseId idA; let idB ← parseId idB
     let klen ← klen.toNat?; let rA ← nat32 rA; let rB ← nat32 rB
@@ -398,6 +474,83 @@ def specStep (toks : List String) : Option String :=
           | _, _ => "ERR"
         | _, _ => "ERR"
       | _, _ => "ERR")
+  | ["sm2_tamper", d, msg, c, order, k, kind, arg] => do
+    let d ← bytesOfHex d; let msg ← bytesOfHex msg; let cands ← parseCands k
+    let comp := c == "1"
+    pure (match specSk d with
+      | none => "ERR"
+      | some d =>
+        if msg.isEmpty then "ERR" else
+        match specEncLoop (Spec.EC.mul Spec.SM2.curve d Spec.SM2.G) msg comp (orderOf order) cands [] with
+        | none => "ANY"
+        | some (ct, _, _, _) =>
+          (match tamper ct (if comp then 33 else 65) kind arg with
+           | some ct' => showSpec ((Spec.SM2.decrypt d ct' comp (orderOf order)).map hexB)
+           | none => "BADOP"))
+  | ["pk_hex", h] => do
+    let h ← bytesOfHex h
+    pure (match asciiHexDecode h with
+      | none => "ERR"
+      | some b => (match Spec.SM2.decodePoint b with
+        | some pt => "OK " ++ hexB (Spec.SM2.encodePoint false (some pt)) ++ " " ++ hexB (Spec.SM2.encodePoint true (some pt))
+        | none => "ERR"))
+  | ["sk_hex", h] => do
+    let h ← bytesOfHex h
+    pure (match asciiHexDecode h with
+      | none => "ERR"
+      | some b => (match specSk b with
+        | some d => "OK " ++ hexB (natBE 32 d) ++ " " ++ hexB (Spec.SM2.encodePoint false (Spec.EC.mul Spec.SM2.curve d Spec.SM2.G))
+        | none => "ERR"))
+  | ["sm2_sv", d, id, _msg, cands] => do
+    -- the library's own verification must accept what it signed (whenever a signature is produced at all)
+    let d ← bytesOfHex d; let id ← parseId id; let cands ← parseCands cands
+    pure (match specSk d with
+      | none => "ERR"
+      | some _ => if id.length * 8 > 65535 then "ERR" else if (cands.filter fun c => inRange (beNat c)).isEmpty then "ANY" else "OK verified")
+  | ["sm2_ed", d, msg, _c, _order, cands] => do
+    let d ← bytesOfHex d; let msg ← bytesOfHex msg; let cands ← parseCands cands
+    pure (match specSk d with
+      | none => "ERR"
+      | some _ => if msg.isEmpty then "ERR" else if (cands.filter fun c => inRange (beNat c)).isEmpty then "ANY" else "OK " ++ hexB msg)
+  | ["sm2_ed_asn1", d, msg, cands] => do
+    let d ← bytesOfHex d; let msg ← bytesOfHex msg; let cands ← parseCands cands
+    pure (match specSk d with
+      | none => "ERR"
+      | some _ => if msg.isEmpty then "ERR" else if (cands.filter fun c => inRange (beNat c)).isEmpty then "ANY" else "OK " ++ hexB msg)
+  | ["sm2_spki_enc", pk] => do
+    let pk ← bytesOfHex pk
+    pure (match Spec.SM2.decodePoint pk with
+      | some pt => "OK " ++ hexB (Impl.SM2.spkiPrefix ++ Spec.SM2.encodePoint false (some pt))
+      | none => "ERR")
+  | ["sm2_spki_dec", der] => do
+    let der ← bytesOfHex der
+    pure (if der.length = 91 ∧ der.take 26 = Impl.SM2.spkiPrefix then
+        (match Spec.SM2.decodePoint (der.drop 26) with
+         | some pt => "OK " ++ hexB (Spec.SM2.encodePoint false (some pt))
+         | none => "ERR")
+      else "NOPANIC")
+  | ["sm2_pkcs8_enc", d] => do
+    let d ← bytesOfHex d
+    pure (match specSk d with
+      | some d => "OK " ++ hexB (Impl.SM2.pkcs8Prefix ++ natBE 32 d ++ Impl.SM2.pkcs8Mid ++ Spec.SM2.encodePoint false (Spec.EC.mul Spec.SM2.curve d Spec.SM2.G))
+      | none => "ERR")
+  | ["sm2_pkcs8_dec", der] => do
+    let der ← bytesOfHex der
+    pure (if der.length = 138 ∧ der.take 36 = Impl.SM2.pkcs8Prefix ∧ (der.drop 68).take 5 = Impl.SM2.pkcs8Mid then
+        (match specSk ((der.drop 36).take 32), Spec.SM2.decodePoint (der.drop 73) with
+         | some d, some _ => "OK " ++ hexB (natBE 32 d) ++ " " ++ hexB (Spec.SM2.encodePoint false (Spec.EC.mul Spec.SM2.curve d Spec.SM2.G))
+         | _, _ => "ERR")
+      else "NOPANIC")
+  | ["sm2_spki_pem_rt", pk, _le] => do
+    let pk ← bytesOfHex pk
+    pure (match Spec.SM2.decodePoint pk with
+      | some pt => "OK " ++ hexB (Spec.SM2.encodePoint false (some pt))
+      | none => "ERR")
+  | ["sm2_pkcs8_pem_rt", d, _le] => do
+    let d ← bytesOfHex d
+    pure (match specSk d with
+      | some d => "OK " ++ hexB (natBE 32 d) ++ " " ++ hexB (Spec.SM2.encodePoint false (Spec.EC.mul Spec.SM2.curve d Spec.SM2.G))
+      | none => "ERR")
   | ["sm2_keygen", cands] => do
     let cands ← parseCands cands
     pure (match cands.filter (fun c => inRange (beNat c)) with
